@@ -177,6 +177,9 @@ class Incremental:
                 return r
             if k == "anon":
                 return h.AnonymousBundle(**{f: mk(v) for f, v in c["fields"]})
+            if k == "orphan" and c.get("owner") == "module":
+                # a signal that belongs to (and is in use inside) another module of the design
+                return mods[c["from"]].get(c["sig"])
             if k == "orphan":
                 sig = h.Signal(width=c["w"], name="orph")
                 if c.get("owner") == "other":
